@@ -1,6 +1,7 @@
 package fieldpkg
 
 import (
+	"bytes"
 	"encoding/hex"
 	"math/big"
 	"testing"
@@ -21,6 +22,39 @@ type caseC12 struct {
 	Alias string `json:"alias,omitempty"` // "" | out=u | out=v | u=v | all
 	Cond  uint64 `json:"cond,omitempty"`  // cmove: 0 or 1
 	Rel   string `json:"rel,omitempty"`   // equals: how v was derived from u
+	// Noise > 0: another exported function of the layer is called first, on other objects (the order of two different kinds of
+	// call must not matter: whatever the first leaves in pools or scratch space is not the second's input).
+	Noise int `json:"noise,omitempty"`
+}
+
+// NumNoise is the number of fieldNoise recipes.
+const NumNoise = 7
+
+// fieldNoise calls one of the layer's other exported functions with operands derived from seed.
+func fieldNoise(kind int, seed *big.Int) {
+	full := ref.Bytes32(new(big.Int).Mod(new(big.Int).Add(new(big.Int).Lsh(seed, 64), pm1), ref.P)) // a value with all four words in use
+	a := field.New()
+	switch kind {
+	case 1:
+		a.FromBytesNoReduce(full)
+	case 2:
+		a.FromBytesNoReduce(full[8:])
+	case 3:
+		a.FromBytesWithReduce([32]byte(bytes.Repeat([]byte{0xff}, 32)))
+	case 4:
+		var w [48]byte
+		copy(w[:], bytes.Repeat(full, 2))
+		a.HashToFieldElement(w)
+	case 5:
+		a.FromBytesNoReduce(full)
+		field.New().SqrtRatio(a, field.New().One())
+		_ = a.Bytes()
+	case 6:
+		a.FromBytesNoReduce(full)
+		b := field.New().Invert(*a)
+		a.CMove(1, a, b)
+		field.New().SqrtRatio(a, b)
+	}
 }
 
 var c12ops = []string{"add", "sub", "mul", "square", "neg", "invert", "sqrtratio", "sgn0", "iszero", "equals", "cmove", "set", "one", "bytes", "mul", "square", "mul", "square", "add", "sub"}
@@ -37,6 +71,9 @@ var c12 = gen.Register(&gen.Check[caseC12]{
 		c := caseC12{Op: rapid.SampledFrom(c12ops).Draw(t, "op"), U: FVGen().Draw(t, "u"), V: FVGen().Draw(t, "v"), Prior: FVGen().Draw(t, "prior")}
 		c.Alias = rapid.SampledFrom([]string{"", "", "", "out=u", "out=v", "u=v", "all"}).Draw(t, "alias")
 		c.Cond = uint64(rapid.IntRange(0, 1).Draw(t, "cond"))
+		if gen.Chance(t, "noise", 1, 4) {
+			c.Noise = 1 + gen.Pick(t, "noiseKind", NumNoise-1)
+		}
 		if c.Op == "equals" {
 			c.Rel = rapid.SampledFrom([]string{"random", "equal", "one-mont-limb", "adjacent"}).Draw(t, "rel")
 			switch c.Rel {
@@ -108,6 +145,10 @@ var c12 = gen.Register(&gen.Check[caseC12]{
 	},
 	Required: []string{"mont-operand", "alias", "wrap:add", "wrap:sub", "sqrt:square", "sqrt:non-square", "equals:one-mont-limb", "op:invert"},
 	Run: func(c caseC12, o *gen.Obs) error {
+		if c.Noise > 0 {
+			fieldNoise(c.Noise, c.Prior.Value())
+			o.Class("after-other-call")
+		}
 		u, v, out := c.U.Build(), c.V.Build(), c.Prior.Build()
 		vu, vv := c.U.Value(), c.V.Value()
 		switch c.Alias {
@@ -246,8 +287,9 @@ func TestC12Ops(t *testing.T) { c12.Execute(t) }
 // --- parser, serialiser, wide reduction ------------------------------------------------------------------
 
 type caseC12bytes struct {
-	Kind string `json:"kind"` // parse32 | wide48
-	Data string `json:"data"`
+	Kind  string `json:"kind"` // parse32 | wide48
+	Data  string `json:"data"`
+	Noise int    `json:"noise,omitempty"` // see caseC12
 }
 
 func gen32AroundP(t *rapid.T) *big.Int {
@@ -283,10 +325,14 @@ var c12bytes = gen.Register(&gen.Check[caseC12bytes]{
 	Name:   "C12/bytes",
 	Weight: 0.5,
 	Gen: func(t *rapid.T) caseC12bytes {
-		if rapid.Bool().Draw(t, "wide") {
-			return caseC12bytes{Kind: "wide48", Data: hex.EncodeToString(gen.Wide48(t, ref.P))}
+		noise := 0
+		if gen.Chance(t, "noise", 1, 3) {
+			noise = 1 + gen.Pick(t, "noiseKind", NumNoise-1)
 		}
-		return caseC12bytes{Kind: "parse32", Data: gen.H(gen32AroundP(t))}
+		if rapid.Bool().Draw(t, "wide") {
+			return caseC12bytes{Kind: "wide48", Data: hex.EncodeToString(gen.Wide48(t, ref.P)), Noise: noise}
+		}
+		return caseC12bytes{Kind: "parse32", Data: gen.H(gen32AroundP(t)), Noise: noise}
 	},
 	Fixed: func() []caseC12bytes {
 		two256 := new(big.Int).Lsh(bigOne, 256)
@@ -309,6 +355,10 @@ var c12bytes = gen.Register(&gen.Check[caseC12bytes]{
 		data := gen.HexBytes(c.Data)
 		v := ref.OS2IP(data)
 		o.NonTrivial()
+		if c.Noise > 0 {
+			fieldNoise(c.Noise, new(big.Int).Rsh(v, 7))
+			o.Class("after-other-call")
+		}
 		switch c.Kind {
 		case "parse32":
 			lt := v.Cmp(ref.P) < 0
